@@ -529,6 +529,21 @@ theorem parseWith_dumps_pyEq (lim : Nat) (v : PyVal) (hrep : jsonRep v = true) (
     ∃ w, parseWith lim (dumps v) = .ok w ∧ PyVal.pyEq w v = true :=
   ⟨_, parseWith_dumps lim v hrep hnum, pyEq_canon v hrep⟩
 
+/-! ### the printer is injective (the text determines the document) -/
+
+theorem render_injective (lim lvl : Nat) (v w : PyVal) (hv : jsonRep v = true) (hw : jsonRep w = true)
+    (nv : numsOk lim v = true) (nw : numsOk lim w = true) (h : render lvl v = render lvl w) : v = w := by
+  have h1 := parseWith_render lim lvl v hv nv
+  rw [h, parseWith_render lim lvl w hw nw] at h1
+  exact (Except.ok.inj h1).symm
+
+/-- the converse of `dumps_congr` (C08: same canonical document ⇒ same bytes): same bytes ⇒ same canonical document -/
+theorem dumps_injective (lim : Nat) (a b : PyVal) (ha : jsonRep a = true) (hb : jsonRep b = true)
+    (na : numsOk lim a = true) (nb : numsOk lim b = true) (h : dumps a = dumps b) : PyVal.canon a = PyVal.canon b := by
+  have h1 := parseWith_dumps lim a ha na
+  rw [h, parseWith_dumps lim b hb nb] at h1
+  exact (Except.ok.inj h1).symm
+
 /-! ### when the side condition on numbers holds -/
 
 /-- with the digit limit disabled (`sys.set_int_max_str_digits(0)`) every integer is read back -/
